@@ -319,7 +319,15 @@ func (b *Body) reachSet(fn *ssa.Function, byteDef ssa.Value, assume map[ssa.Valu
 	}()
 	def, ok := byteDef.(ssa.Instruction)
 	if !ok {
-		return set, "byte value is not an instruction"
+		// a parameter of a helper: the whole function is one "iteration", from its entry
+		if _, isParam := byteDef.(*ssa.Parameter); !isParam || len(fn.Blocks) == 0 {
+			return set, "byte value is not an instruction"
+		}
+		p := &bytePath{b: b, fn: fn, byteVal: map[ssa.Value]bool{byteDef: true}, assume: assume, tables: tables, stop: nil, target: target}
+		var full bset
+		full = full.not()
+		p.run(fn.Blocks[0], nil, full, map[ssa.Value]bpVal{}, 0)
+		return p.reached, ""
 	}
 	h := innermostLoopHeader(def.Block())
 	p := &bytePath{b: b, fn: fn, byteVal: map[ssa.Value]bool{byteDef: true}, assume: assume, tables: tables, stop: h, target: target}
@@ -437,8 +445,8 @@ func ruleEscSet(c *Ctx) {
 				flag = p
 			}
 		}
-		u00 := writeStringConstCalls(fn, `\u00`)
-		u202 := writeStringConstCalls(fn, `\u202`)
+		u00, u00x := escapeSites(fn, `\u00`, 2)
+		u202, u202x := escapeSites(fn, `\u202`, 1)
 		if src == nil || len(u00) != 1 || len(u202) != 1 {
 			l.add("R-ESCSET", "codec", name+": one \\u00 and one \\u202 substitution site", b.rel(fn.Pos()), Violated, fmt.Sprintf("found %d writes of `\\u00` and %d of `\\u202`", len(u00), len(u202)), true)
 			continue
@@ -482,20 +490,8 @@ func ruleEscSet(c *Ctx) {
 		bad := ""
 		blk := u00[0].Block()
 		var pieces []string
-		after := false
-		for _, ins := range blk.Instrs {
-			if ins == ssa.Instruction(u00[0]) {
-				after = true
-				continue
-			}
-			if !after {
-				continue
-			}
-			if call, ok := ins.(*ssa.Call); ok {
-				if f := call.Call.StaticCallee(); f != nil && strings.HasSuffix(stdName(f), "(*Buffer).WriteByte") {
-					pieces = append(pieces, hexPiece(call.Call.Args[1], cbyte))
-				}
-			}
+		for _, v := range u00x[0] {
+			pieces = append(pieces, hexPiece(v, cbyte))
 		}
 		if strings.Join(pieces, ",") != "hex[c>>4],hex[c&15]" {
 			bad = "after `\\u00` the function writes " + strings.Join(pieces, ",") + ", expected hex[c>>4],hex[c&15]"
@@ -503,26 +499,14 @@ func ruleEscSet(c *Ctx) {
 		// \u202 piece and guards
 		blk2 := u202[0].Block()
 		pieces = nil
-		after = false
 		var third ssa.Value
-		for _, ins := range blk2.Instrs {
-			if ins == ssa.Instruction(u202[0]) {
-				after = true
-				continue
-			}
-			if !after {
-				continue
-			}
-			if call, ok := ins.(*ssa.Call); ok {
-				if f := call.Call.StaticCallee(); f != nil && strings.HasSuffix(stdName(f), "(*Buffer).WriteByte") {
-					// hex[x & 0xF] where x = src[i+2]
-					if _, lidx, ok := indexExpr(call.Call.Args[1]); ok {
-						if bo, ok := unwrapConv(lidx).(*ssa.BinOp); ok && bo.Op == token.AND {
-							if k, ok := intConst(bo.Y); ok && k == 15 {
-								third = bo.X
-								pieces = append(pieces, "hex[x&15]")
-							}
-						}
+		for _, v := range u202x[0] {
+			// hex[x & 0xF] where x = src[i+2]
+			if _, lidx, ok := indexExpr(v); ok {
+				if bo, ok := unwrapConv(lidx).(*ssa.BinOp); ok && bo.Op == token.AND {
+					if k, ok := intConst(bo.Y); ok && k == 15 {
+						third = bo.X
+						pieces = append(pieces, "hex[x&15]")
 					}
 				}
 			}
@@ -532,12 +516,13 @@ func ruleEscSet(c *Ctx) {
 		}
 		// dominating guards: src[i+1] == 0x80 and src[i+2]&^1 == 0xA8, third is src[i+2]
 		g80, gA8 := false, false
-		for _, bb := range fn.Blocks {
-			iff, ok := bb.Instrs[len(bb.Instrs)-1].(*ssa.If)
-			if !ok || !edgeDominates(bb, 0, blk2) {
+		// every atomic comparison known to hold where the substitution is written (conditions
+		// joined with && or held in a named boolean are taken apart)
+		for _, ef := range dominatingFacts(blk2) {
+			if !ef.True {
 				continue
 			}
-			bo, ok := iff.Cond.(*ssa.BinOp)
+			bo, ok := ef.V.(*ssa.BinOp)
 			if !ok || bo.Op != token.EQL {
 				continue
 			}
@@ -576,21 +561,50 @@ func ruleEscSet(c *Ctx) {
 					if h := innermostLoopHeader(tgt); h != nil && bb == h {
 						continue // the loop condition itself
 					}
-					cv, _ := stripNot(iff.Cond)
-					if flag != nil && cv == ssa.Value(flag) {
-						continue
+					// a condition held in a named boolean (or built with && / ||) is judged leaf by leaf
+					okLeaf := func(cv ssa.Value) bool {
+						if flag != nil && cv == ssa.Value(flag) {
+							return true
+						}
+						if bo, ok := cv.(*ssa.BinOp); ok {
+							// comparisons of input bytes with constants, index/bounds comparisons
+							if _, isK := intConst(bo.Y); isK {
+								return true
+							}
+							if _, isK := intConst(bo.X); isK {
+								return true
+							}
+							if bt, ok := bo.X.Type().Underlying().(*types.Basic); ok && bt.Info()&types.IsInteger != 0 && bt.Kind() != types.Uint8 {
+								return true // i+2 < len(src), start < i
+							}
+						}
+						return false
 					}
-					if bo, ok := cv.(*ssa.BinOp); ok {
-						// comparisons of input bytes with constants, index/bounds comparisons
-						if _, isK := intConst(bo.Y); isK {
-							continue
+					var leaves func(v ssa.Value, d int) bool
+					leaves = func(v ssa.Value, d int) bool {
+						v, _ = stripNot(v)
+						if _, isC := v.(*ssa.Const); isC {
+							return true
 						}
-						if _, isK := intConst(bo.X); isK {
-							continue
+						phi, isPhi := v.(*ssa.Phi)
+						if !isPhi || d > 6 {
+							return okLeaf(v)
 						}
-						if bt, ok := bo.X.Type().Underlying().(*types.Basic); ok && bt.Info()&types.IsInteger != 0 && bt.Kind() != types.Uint8 {
-							continue // i+2 < len(src), start < i
+						for i, e := range phi.Edges {
+							if !leaves(e, d+1) {
+								return false
+							}
+							if pi, ok := lastInstr(phi.Block().Preds[i]).(*ssa.If); ok {
+								if !leaves(pi.Cond, d+1) {
+									return false
+								}
+							}
 						}
+						return true
+					}
+					cv, _ := stripNot(iff.Cond)
+					if leaves(cv, 0) {
+						continue
 					}
 					bad = "whether a byte is escaped also depends on " + describeValue(cv) + " (branch at " + b.posOf(iff) + "), not only on the escape flag and the byte: with the flag on some occurrences stay unescaped"
 				}
@@ -635,6 +649,50 @@ func ruleEscSet(c *Ctx) {
 			}
 		})
 		lbs := loopBytes(fn, src)
+		// the escape writers may have been moved into helpers of the encoder that are handed
+		// the byte (rune): the call is the site, the spelling is read inside the helper
+		helperWith := func(pred func(*ssa.Function) bool) (*ssa.Call, *ssa.Function, *ssa.Parameter) {
+			var hc *ssa.Call
+			var hf *ssa.Function
+			var hp *ssa.Parameter
+			allInstrs(fn, func(i ssa.Instruction) {
+				call, ok := i.(*ssa.Call)
+				if !ok {
+					return
+				}
+				f := call.Call.StaticCallee()
+				if f == nil || f.Pkg != sp || len(f.Blocks) == 0 || !pred(f) {
+					return
+				}
+				for ai, a := range call.Call.Args {
+					if ai == 0 || ai >= len(f.Params) {
+						continue
+					}
+					if bt, ok := a.Type().Underlying().(*types.Basic); ok && bt.Info()&types.IsInteger != 0 {
+						hc, hf, hp = call, f, f.Params[ai]
+					}
+				}
+			})
+			return hc, hf, hp
+		}
+		writesBackslash := func(f *ssa.Function) bool {
+			found := false
+			allInstrs(f, func(i ssa.Instruction) {
+				if call, ok := i.(*ssa.Call); ok {
+					if g := call.Call.StaticCallee(); g != nil && strings.HasSuffix(stdName(g), "(*Buffer).WriteByte") {
+						if k, ok := intConst(call.Call.Args[1]); ok && k == '\\' {
+							found = true
+						}
+					}
+				}
+			})
+			return found
+		}
+		var escHelper *ssa.Function
+		var escParam *ssa.Parameter
+		if esc == nil {
+			esc, escHelper, escParam = helperWith(writesBackslash)
+		}
 		if src == nil || flag == nil || esc == nil || len(lbs) == 0 {
 			l.add("R-ESCSET", "codec", "encodeState."+name+": escape site", b.rel(fn.Pos()), Undecided, fmt.Sprintf("escape site or loop byte not recognised (src=%v flag=%v esc=%v loop bytes=%d)", src != nil, flag != nil, esc != nil, len(lbs)), true)
 			continue
@@ -661,6 +719,11 @@ func ruleEscSet(c *Ctx) {
 		}
 		// U+2028 / U+2029 are escaped whatever the flag says (as the standard library does)
 		u202s := writeStringConstCalls(fn, `\u202`)
+		if len(u202s) == 0 {
+			if hc, _, _ := helperWith(func(f *ssa.Function) bool { return len(writeStringConstCalls(f, `\u202`)) == 1 }); hc != nil {
+				u202s = []*ssa.Call{hc}
+			}
+		}
 		if len(u202s) != 1 {
 			l.add("R-ESCSET", "codec", "encodeState."+name+": U+2028/U+2029 escape", b.rel(fn.Pos()), Violated, fmt.Sprintf("%d writes of `\\u202`", len(u202s)), true)
 		} else {
@@ -680,6 +743,23 @@ func ruleEscSet(c *Ctx) {
 		}
 		// <,>,& take the u00XX spelling
 		u00 := writeStringConstCalls(fn, `u00`)
+		if len(u00) == 0 && escHelper != nil {
+			// inside the helper: the bytes that reach the helper, cut down to those that reach
+			// its u00 write
+			if hu := writeStringConstCalls(escHelper, `u00`); len(hu) == 1 {
+				gotCall, err1 := b.reachSet(fn, cbyte, map[ssa.Value]bool{flag: true}, tables, esc)
+				gotIn, err2 := b.reachSet(escHelper, escParam, map[ssa.Value]bool{}, tables, hu[0])
+				var want bset
+				for i := 0; i < 0x20; i++ {
+					if i != '\n' && i != '\r' && i != '\t' {
+						want.add(i)
+					}
+				}
+				want = want.or(html3)
+				report(fmt.Sprintf("encodeState.%s (escapeHTML on): bytes spelled \\u00XX", name), b.posOf(hu[0]), gotCall.and(gotIn).and(ascii), want, err1+err2)
+				continue
+			}
+		}
 		if len(u00) != 1 {
 			l.add("R-ESCSET", "codec", "encodeState."+name+": \\u00XX spelling", b.rel(fn.Pos()), Violated, fmt.Sprintf("%d writes of `u00`", len(u00)), true)
 		} else {
@@ -928,4 +1008,120 @@ func (b *Body) memberNameEscapes(l *Ledger) {
 		return
 	}
 	l.add("R-ESCSET", "v5", key, b.posOf(nameCall), Violated, "member names are spelled by "+fname(nameCall.Call.StaticCallee())+" → (*encodeState).string, whose U+2028/U+2029 escape does not depend on the escapeHTML flag: with EscapeHTML off a name holding U+2028 is written as \\u2028 (an escape the patch introduces), while the same character in a value stays raw", true)
+}
+
+
+// emitItem: one byte written to a bytes.Buffer — a constant, or a computed value.
+type emitItem struct {
+	ins ssa.Instruction // the write that carries it
+	k   int64           // the constant byte, or -1
+	v   ssa.Value       // the computed byte
+}
+
+// emitted lists, in order, the bytes a block writes with WriteString(constant), WriteByte(x)
+// and Write(a byte-slice literal); writes of other slices (a run of input bytes) are skipped.
+func emitted(bb *ssa.BasicBlock) []emitItem {
+	var out []emitItem
+	for _, ins := range bb.Instrs {
+		call, ok := ins.(*ssa.Call)
+		if !ok {
+			continue
+		}
+		f := call.Call.StaticCallee()
+		if f == nil {
+			continue
+		}
+		n := stdName(f)
+		if len(call.Call.Args) == 0 {
+			continue
+		}
+		last := call.Call.Args[len(call.Call.Args)-1]
+		switch {
+		case strings.HasSuffix(n, "(*Buffer).WriteString"):
+			if str, ok := strConst(last); ok {
+				for i := 0; i < len(str); i++ {
+					out = append(out, emitItem{ins, int64(str[i]), nil})
+				}
+			}
+		case strings.HasSuffix(n, "(*Buffer).WriteByte"):
+			if k, ok := intConst(last); ok {
+				out = append(out, emitItem{ins, k, nil})
+			} else {
+				out = append(out, emitItem{ins, -1, last})
+			}
+		case strings.HasSuffix(n, "(*Buffer).Write"):
+			sl, ok := last.(*ssa.Slice)
+			if !ok {
+				continue
+			}
+			al, ok := sl.X.(*ssa.Alloc)
+			if !ok {
+				continue
+			}
+			arr, ok := derefPtr(al.Type()).Underlying().(*types.Array)
+			if !ok {
+				continue
+			}
+			elems := make([]emitItem, arr.Len())
+			for i := range elems {
+				elems[i] = emitItem{ins, 0, nil}
+			}
+			for _, r := range *al.Referrers() {
+				ia, ok := r.(*ssa.IndexAddr)
+				if !ok {
+					continue
+				}
+				idx, ok := intConst(ia.Index)
+				if !ok || idx < 0 || idx >= int64(len(elems)) {
+					continue
+				}
+				for _, r2 := range *ia.Referrers() {
+					if st, ok := r2.(*ssa.Store); ok {
+						if k, ok := intConst(st.Val); ok {
+							elems[idx] = emitItem{ins, k, nil}
+						} else {
+							elems[idx] = emitItem{ins, -1, st.Val}
+						}
+					}
+				}
+			}
+			out = append(out, elems...)
+		}
+	}
+	return out
+}
+
+// escapeSite: the block of fn that writes the constant prefix followed by n computed bytes;
+// returns the first write of the sequence and the computed bytes.
+func escapeSites(fn *ssa.Function, prefix string, n int) (sites []ssa.Instruction, exprs [][]ssa.Value) {
+	for _, bb := range fn.Blocks {
+		em := emitted(bb)
+		for i := 0; i+len(prefix)+n <= len(em); i++ {
+			match := true
+			for j := 0; j < len(prefix); j++ {
+				if em[i+j].k != int64(prefix[j]) {
+					match = false
+					break
+				}
+			}
+			if !match {
+				continue
+			}
+			var vs []ssa.Value
+			for j := 0; j < n; j++ {
+				it := em[i+len(prefix)+j]
+				if it.k != -1 {
+					match = false
+					break
+				}
+				vs = append(vs, it.v)
+			}
+			if !match {
+				continue
+			}
+			sites = append(sites, em[i].ins)
+			exprs = append(exprs, vs)
+		}
+	}
+	return
 }
